@@ -414,6 +414,12 @@ func (c14Engine) Exec(t *testing.T, cc any) *simrt.Result {
 				}
 			}
 			dc.db.Close()
+			if _, serr := os.Stat(snap); serr != nil {
+				// this execution made fewer driver calls than the baseline (only
+				// possible when the two databases differ, which is reported above)
+				st.Probe("crash_point_not_reached")
+				continue
+			}
 			st.Fault("crash")
 			if ds := open(snap); ds != nil {
 				q, qerr := c14Ask(ds, probes)
